@@ -125,15 +125,22 @@ def runHeap (j : Json) : Except String Json := do
   let h := Heap.ofList cells
   let probes ← (← (← j.getObjVal? "probes").getArr?).toList.mapM fun p => do
     pure ((← (← p.getObjVal? "root").getNat?), (← copyOpOfStr (← (← p.getObjVal? "op").getStr?)))
+  -- the same graph with every ImmutableStructure read as an atomic value (references to it are atoms)
+  let erased : Option Heap ← match optField j "erased" with
+    | none => pure none
+    | some e => do pure (some (Heap.ofList (← (← e.getArr?).toList.mapM cellOfJson)))
   let outs := probes.map fun (root, op) =>
     let real := copyOp Generated.copyRows op false 64 h root
+    let strictErased := match erased, op with
+      | some he, .deepcopy => root == 0 && (copyOp Generated.copyRows op true 64 he root).2.isSome
+      | _, _ => false
     let strict := match op with
       | .copy => false
       | _ => (copyOp Generated.copyRows op true 64 h root).2.isSome
     match real with
     | (h', some y) =>
       let old := reachList depth h (.ref root)
-      Json.mkObj [("ok", .bool true), ("strict", .bool strict),
+      Json.mkObj [("ok", .bool true), ("strict", .bool strict), ("strictErased", .bool strictErased),
         ("shared", Json.arr ((sharedPaths depth h' old [] y).map fun path => Json.arr (path.map Json.str).toArray).toArray),
         ("sharedT", Json.arr ((sharedPathsT depth h' old [] y).map fun pt =>
             Json.arr #[Json.arr (pt.1.map Json.str).toArray, Json.str pt.2]).toArray),
